@@ -89,6 +89,17 @@ def as_iterable(items, how):
     return {"list": items, "tuple": tuple(items), "generator": (x for x in items), "iter": iter(items)}[how or "list"]
 
 
+def break_annotations(arr, how):
+    """Make arr's annotations differ from its siblings': one value, one category more, or one category fewer."""
+    opt = [c for c in arr.get_annotation_categories() if c not in MANDATORY]
+    if how == "add_cat":
+        arr.add_annotation("uid2", dtype=int)
+    elif how == "del_cat" and opt:
+        arr.del_annotation(opt[0])
+    else:
+        arr.res_id[0] += 1000
+
+
 def np_index(spec):
     """The index object handed to biotite. 'as' selects another spelling numpy accepts for the same index:
     a numpy integer scalar, a Python list of ints / bools, an int32 array, a read-only array."""
@@ -712,6 +723,7 @@ def generate(rng):
                 op = {"op": "stack_variants", "src": a, "dst": dst, "coords": [gen_coord(rng, (m.n, 3)).tolist() for _ in range(k)],
                       "boxes": [gen_box(rng) if (with_box or rng.random() < 0.2) else None for _ in range(k)],
                       "break_annot": (rng.randrange(k) if (faulty and k > 1 and rng.random() < 0.3) else None),
+                      "break_how": rng.choice(["value", "add_cat", "del_cat"]),
                       "as": rng.choice(["list", "list", "tuple", "generator", "iter"])}
             elif r < 0.55:
                 k = rng.choice([0, 1, 1, 2, 2, 3])  # the first dimension of coord is the number of repeats; zero is a length too
@@ -749,7 +761,7 @@ def generate(rng):
                 i = rng.randint(-m.m, m.m - 1) if not (faulty and rng.random() < 0.3) else rng.choice([m.m, -m.m - 1])
                 op = {"op": "set_model", "r": a, "i": i, "coord": gen_coord(rng, (m.n, 3)).tolist(),
                       "box": gen_box(rng) if (m.box is not None or rng.random() < 0.3) else None,
-                      "break_annot": faulty and m.n > 0 and rng.random() < 0.25}
+                      "break_annot": faulty and m.n > 0 and rng.random() < 0.25, "break_how": rng.choice(["value", "add_cat", "del_cat"])}
             elif r < 0.89:
                 what = rng.choice(["add", "set", "attr", "del", "set"])
                 cat = rng.choice(list(EXTRA) + (list(m.ann) if what != "del" else [c for c in m.ann if c not in MANDATORY] or ["uid"]))
@@ -1031,6 +1043,14 @@ class Sim:
                     ma.ann["res_id"] = list(ma.ann["res_id"])
                     ma.ann["res_id"][-1] = ma.ann["res_id"][-1] + 1
                     variants.append(("one annotation value", ma))
+                mx = m.copy()
+                mx.ann["uid2"] = [0] * m.n
+                variants.append(("one more annotation category", mx))
+                opt = [c for c in m.ann if c not in MANDATORY]
+                if opt:
+                    my = m.copy()
+                    del my.ann[opt[0]]
+                    variants.append(("one annotation category fewer", my))
                 mo = m.copy()
                 if m.bonds is None:
                     mo.bonds = {}
@@ -1111,7 +1131,7 @@ class Sim:
                     a.coord = np.array(c, dtype=np.float32).reshape(src.array_length(), 3)
                     a.box = None if op["boxes"][k] is None else np.array(op["boxes"][k], dtype=np.float32)
                     if op.get("break_annot") == k and a.array_length() > 0:
-                        a.res_id[0] += 1000
+                        break_annotations(a, op.get("break_how"))
                     arrays.append(a)
                 return {op["dst"]: struc.stack(as_iterable(arrays, op.get("as")))}, None
             return f
@@ -1146,7 +1166,7 @@ class Sim:
                 arr.coord = np.array(op["coord"], dtype=np.float32).reshape(stk.array_length(), 3)
                 arr.box = None if op["box"] is None else np.array(op["box"], dtype=np.float32)
                 if op.get("break_annot") and arr.array_length() > 0:
-                    arr.res_id[0] += 1000
+                    break_annotations(arr, op.get("break_how"))
                 stk[op["i"]] = arr
                 return {}, None
             return f
